@@ -2,3 +2,6 @@
 pub mod common;
 pub mod c01;
 pub mod c05;
+pub mod c06;
+pub mod c11;
+pub mod c15;
